@@ -1,23 +1,23 @@
-"""C09 (fold side) - compile-time evaluation of primitives agrees with the documented semantics.
+"""C09 - compile-time evaluation of primitives agrees with the emitted run-time logic.
 
-Three evaluations of one operation are foreseen by DESIGN.md section 3 "C09":
+Evaluations of one operation (DESIGN.md section 3 "C09"):
 
   F  fold: the cohdl Python objects applied to constants (what the tracer does when no operand is
      run-time).  Level "P": called directly.  Level "T": the same expression traced inside a
      `std.concurrent` context on constants, the folded result captured by a `cohdl.pyeval` probe.
+     Level "C": constants compiled into a design, the literal printed by the backend simulated.
   M  the reference model cv.ref.values (plain ints, never imports cohdl).
-  R  run-time: emitted VHDL simulated with the operands on ports.  NOT part of this module yet; the
-     plug-in points are
-         cells(tier)                    -> list of (op, kinds, widths)
-         fold(cell, values)             -> ("ok", kind, width, value) | ("rejected", exc) for one valuation
-         model(cell, values)            -> cv.ref.values.V | UNSPEC
-         render_runtime_entity(cell)    -> Python source of an Entity `Top` (operands on input ports `a`, `b`,
-                                           result on output port(s)), or None when the cell has no run-time form
-         runtime_ports(cell)            -> description of those ports
-         valuations(cell)               -> all operand valuations of the cell
+  R  run-time: `render_runtime_entity(cell)` compiled once per cell, the emitted VHDL simulated with
+     cv.vhdl for ALL operand valuations (operands on ports a/b, result on o / o_<n>).
 
-This module checks F against M for every cell and EVERY operand valuation (one case = one cell).
-An exception in F is `fold_rejected` (counted, never a violation).
+Reported divergences carry "pair": F-M (levels P, T), F-R and R-M (level R; F-R is the statement of C09),
+C-F (level C).  Helper API: cells(tier), valuations(cell), fold(cell, values), model(cell, values),
+render_runtime_entity(cell[, int_values]), runtime_ports(cell[, int_values]), render_const_entity(...).
+
+An exception in F is `fold_rejected`; a run-time design cohdl rejects is `rejected`; static errors of
+the emitted VHDL are `blocked_by_static` (C06 owns legality); constructs the engine does not model are
+`blocked`.  None of these is a violation.  A SimError where the fold is defined is reported
+("div": "sim_error:<kind>").
 
 cell = (op, kinds, widths)
     op      operator name, parameters appended with ':'  e.g. "add", "resize:5:1" (to:zeros), "msb:2" (n),
@@ -37,23 +37,30 @@ from cv.ref.values import UNSPEC, V
 _enum = builtins.enumerate  # the module contract names a function `enumerate`
 
 PROPERTY = "C09"
-TECHNIQUE = ("complete enumeration of operator x operand-kind x width cells with ALL operand valuations; "
-             "differential comparison of cohdl's constant folding (direct call and traced context + pyeval probe) "
-             "against a reference model of the documented value semantics on plain ints")
+TECHNIQUE = ("complete enumeration of operator x operand-kind x width cells with ALL operand valuations; three-way "
+             "differential comparison: cohdl's constant folding (direct call, traced context + pyeval probe, literal "
+             "compiled into a design) vs. the emitted VHDL simulated with the operands on ports vs. a reference model "
+             "of the documented value semantics on plain ints")
 RULE = (
-    "case = one cell (operator or method, operand kinds incl. Python int / cohdl.Integer on either side, operand "
-    "widths 1..3 quick / 1..4 thorough, mixed) evaluated for ALL operand valuations (ints: every value in "
-    "[-2**w-1, 2**w+1] for the width w they adopt); non-trivial = for at least one valuation the fold produced a "
-    "result that was compared with a model-determined value, and the expected results of the cell take >= 2 "
-    "distinct values; distinct = cell name"
+    "case = (level, cell); cell = operator or method x operand kinds (bit, bv, u, s, Python int / cohdl.Integer on "
+    "either side) x operand widths 1..3 quick / 1..4 thorough, mixed; every case evaluates ALL operand valuations "
+    "(ints: every value in [-2**w-1, 2**w+1] for the width w they adopt; level R: the ints representable in that "
+    "width; level C: <= 48 valuations). non-trivial = P/T: the fold produced a result compared with a "
+    "model-determined value and the expected results take >= 2 distinct values; R: fold and simulated logic were "
+    "both defined for >= 1 valuation and the simulated output took >= 2 distinct values; C: >= 2 distinct "
+    "simulated literals; distinct = level:cell name"
 )
 ASSUMPTIONS = [
-    "only the fold side (F) is compared with the reference model (M); the run-time side (R, simulated VHDL) is "
-    "not evaluated by this check yet",
-    "result kind/width rules are those of the C02/C09 statements; operand combinations, ints not representable in "
-    "the width they adopt, x/0, shift counts >= width or < 0 are model-UNSPEC: skipped and counted",
+    "F-R (fold vs simulated emitted logic) is compared for every valuation where the fold returns fully defined "
+    "bits; result type/width of R = type of the Temporary the tracer creates for the run-time expression (pyeval "
+    "probe), the output port is declared with the documented type",
+    "the VHDL engine cv.vhdl (own numeric_std model, calibrated on the upstream benches) is the trusted base for R",
+    "result kind/width rules are those of the C02/C09 statements; operand combinations outside them, ints not "
+    "representable in the width they adopt, x/0, shift counts >= width or < 0 are model-UNSPEC: F-M and R-M are "
+    "skipped and counted there; unrepresentable ints are simulated for the counters only (unfit_int_*)",
     "`@`, msb/lsb/left/right(n), slices yield BitVector (as the upstream reference designs declare their ports)",
-    "an exception raised by cohdl while folding is `fold_rejected`, never a violation",
+    "an exception raised by cohdl while folding is `fold_rejected`, a rejected run-time design `rejected`, static "
+    "errors in emitted VHDL `blocked_by_static`, engine limits `blocked`: never violations",
     "result value of a vector = its bits read through str(x.bitvector); a bit other than 0/1 in a result whose "
     "value the model determines is reported as `undefined_bits`",
 ]
